@@ -7,7 +7,7 @@ Mode      lattice sweep over complete runs of the REAL rpylib.montecarlo.standar
 Space     N in {1,2,3,5,8} paths  x  ALL sequences of terminal spot values over the 3-letter alphabet A3 = (0.5, 1, 1.5)
           (3^N <= 6561)  x  payoff = call with scalar strike / vector of 2 / vector of 3 strikes (Vanilla with list strikes)
           x  controls in {none, 1r, 1a, 2r, 2a, 2u}  x  notional in {1, 2.5}  x  discount factor in {1, 0.9}
-          x  spot statistics on/off;   nb_of_processes = 1 (the worker pool is C08).
+          x  spot statistics on/off;   nb_of_processes = 1 here, the multiprocessing branch is the sub "pool" below.
           Control kinds: the digit is the number of controls (forward; forward + call). 'r' = the given prices are real
           numbers, one per (scalar) control, as the ControlVariates signature allows; 'a' = the given prices are arrays with
           one entry per payoff component (for a vector payoff the controls have one strike per component, as in
@@ -66,9 +66,50 @@ Space     N in {1,2,3,5,8} paths  x  ALL sequences of terminal spot values over 
               of the process); and the TYPE of the product's underlying changes - scalar call on Spot / LogSpot / Mean, all
               ordered pairs, both representations - while the SAME ControlVariates object (1a, 2a: controls on Spot) stays in
               the configuration; all pairs (N1, N2); fixed scripts (thorough: all A3 sequences for N2 <= 2).
+          (d) "pool": the pool branch on ONE engine (simulated pool, see sub "pool"): payoff s / v2, controls none / 2a, spot
+              statistics on / off (thorough: the configurations of (a)); chains of nb_of_processes (first, second pricing) and
+              operation: (2,2) (3,3) (None,None) plain; (2,2) deepcopy; (3,3) dill; (None,None) fork; (2,2) other; nb_of_processes
+              re-assigned between the pricings (1,2) (2,1) (2,3) (3,None) (None,1) plain, (1,3) deepcopy, (1,2) dill; all pairs
+              (N1, N2); last pricing: all A3 sequences for N2 <= 2, the fixed script for N2 in {3, 5}.
+          (e) copies: operations copy (copy.copy(engine) goes on), dill (a dill round trip of the engine goes on),
+              deepcopy-objects / dill-objects (the same engine goes on with a deep copy / a dill round trip of the Product and of
+              the ControlVariates object) on the configurations of (a), identity representation, all pairs (N1, N2); last
+              pricing as in (d) (thorough: as in (a)).
           Keys of this sub end with `history:<rep>:<first-pricing | re-pricing-with-{fewer,same-number-of,more}-paths:
           {same-configuration | changed-<fields>}:after-<operation> | side-engine-{other,fork}>`; the re-read sub-check reports
           `C07:history:result-of-earlier-pricing-changed-by-later-pricing:<earlier>:then:<later>`.
+          (a pricing in the pool branch appends `:pool-<2|3|cpu-count>-workers:<fewer-paths-than-workers |
+          paths-not-multiple-of-workers | paths-multiple-of-workers>` to its label.)
+          Sub "pool" (both tiers): the multiprocessing branch of Engine.price, nb_of_processes in {2, 3, None}. The engine's
+          module sees mc/c07_util.SimPool instead of pathos.multiprocessing (same model as the SimPool of C08, which is
+          validated there against the real pool: `processes` workers, None = the 4 cpus of the simulated machine, also answered
+          by the stand-in's cpu_count(); initializer once per worker; map_async / map / imap cut the items into chunks of
+          ceil(len / (4 workers)); EVERY chunk works on its own dill round-trip copy of the task; results in item order, the
+          callback once in the parent). The dill copies of the scripted process share the call counter of the original through
+          a uid registry, so the script's paths are handed out one after the other, each once, and the number of calls is
+          observed. Numbers of paths smaller than the number of workers, not a multiple of it, a multiple of it, and beyond
+          4 x workers (chunks of several items): N in {1,2,3} with all A3 sequences on the full lattice (payoff x controls x
+          notional x df x spot statistics); on the sub-lattice (2.5, 0.9, spot on) also N = 5 (the 27 sequences starting with
+          (0.5, 1.5); thorough: all 243, full lattice), the fixed scripts (A4 cycled) of 8, 13, 17, 33 paths, and the LOG
+          representation for N <= 3; the three rare options together (3 workers, N <= 3, the two corners); the four barrier
+          payoffs over B9 (N <= 2, controls 1a, 2 workers; thorough: 2, 3, None). Which task index a worker's path is stored
+          at is the pool's business: the stored rows are first matched with the paths handed out (row i must hold payoff,
+          controls and spot of ONE path, every path used once - on the built-against tree the order is the task order,
+          counted `pool_rows_in_task_order`), then the complete oracle applies. Two cases run the REAL pathos pool
+          ((2 workers, 5 paths), (3 workers, 2 paths)) on a constant script (the worker processes cannot share the script's
+          position; the number of calls is then not observable). If the engine's module has no attribute `mp` to replace,
+          the pool cases are a cap, not an alarm.
+          Argument forms (both tiers, sub "sweep"/"pool" with `forms`, key label `forms-<names>` / `options-<names>`): the same
+          values handed over in another legal form, judged by the complete oracle: strikes as tuple / ndarray / numpy
+          scalars / Python ints / integer array (payoffs si = call strike 1, vi2 = strikes (0, 1)) / one-element list for a
+          scalar; notional as int / numpy scalar (product and controls); given prices as tuple / list of lists / 2-d array /
+          1-d array of reals / numpy scalars; products as tuple; mc_paths / nb_of_processes as numpy integers; price(product=...)
+          by keyword; and three combinations of them with one and with three processes - N <= 3 all A3 sequences, N = 5 the 27
+          sequences (thorough: 243). Forms the built-against tree rejects are outside: strikes of shape (1, n) or 0-d, mc_paths
+          as a float, 0-d prices. A constructor that raises on a listed form is reported as `C07:engine:construction-raises:...`.
+          Caller's arrays (every pricing of every sub): the strikes of the product and of the controls and the given prices are
+          copied before Engine.price and compared after it (`C07:inputs:argument-array-modified-by-pricing:<which>`).
+          Accumulation (both tiers): fixed scripts of 257 and 1000 paths, payoff v2, controls none / 2a, 1 and 3 processes.
           quick = the full lattice for N <= 5 on A3 (and LOG for N <= 3), A4 for N <= 3 in full and N = 5 on the sub-lattice
           notional 2.5 / df 0.9 / spot on, N = 8 on that sub-lattice for payoff s, v2 and controls none, 1a, 2a;
           thorough = everything (N = 8 and A4 with N = 5 on the full lattice).
@@ -107,7 +148,10 @@ process / representation on one engine (the sub "mixed" re-uses product and cont
 engines); direct calls of Engine.initialisation; mc_stddev for N = 1 (the unbiased standard deviation does not exist);
 which coefficient is taken when the controls' sample covariance is singular; controls whose variance is below the
 library's absolute 1e-12 threshold although the matrix is invertible (needs payoffs of size 1e-6: not in the notional
-alphabet; mentioned in the report); get_variance(); nb_of_processes > 1; antithetic sampling (raises NotImplementedError).
+alphabet; mentioned in the report); get_variance(); antithetic sampling (raises NotImplementedError); the random streams of
+the worker processes (C08); mc_paths = 0 (mean of an empty sample); strike / price arrays modified by the CALLER after the
+construction (Vanilla, Forward and ControlVariates keep a reference to what they are given: public attributes, re-assignable,
+the statement promises nothing); exact ties spot = barrier (whether touching is crossing is the payoff's definition, C17).
 Tolerances: rows rtol 1e-12 (same arithmetic); means / errors / adjusted values |x-y| <= 1e-9*scale + 1e-12*scale with
 scale = max(notional*df, largest |sample|); variance inequality slack 1e-10*scale^2 (rounding of the adjusted rows with
 cond(Sigma_X) <= 1e6; a wrong coefficient changes the variance at order scale^2).
@@ -131,14 +175,18 @@ RULE = (
     "the real Engine.price on a fresh engine compared with the pure-Python reference; sub 'history': complete product of "
     "(configuration chain, operation menu, ordered tuples of path numbers from {1,2,3,5}) x every A3 sequence of the last "
     "pricing in the stated range, every pricing on the ONE re-used engine judged by the same reference and every earlier "
-    "result object re-read; a case (block of consecutive "
+    "result object re-read; sub 'pool': complete product of (nb_of_processes in {2,3,None}, configuration lattice, N) x every A3 "
+    "sequence in the stated range plus the stated fixed scripts; argument forms: every listed form x its configurations x the "
+    "same sequences; a case (block of consecutive "
     "sequences of one configuration) is non-trivial when at least one of its runs had two different terminal values; "
     "distinct = distinct case dict"
 )
 ASSUMPTIONS = [
     "the process is a scripted stand-in (mc/c07_util.py) implementing the interface the standard engine uses; engine, "
     "configuration, statistics, path manager, product, payoffs and control variates are the real ones",
-    "single process (nb_of_processes=1); the worker pool is the subject of C08",
+    "the multiprocessing branch is closed by a simulated pool (mc/c07_util.SimPool: the chunking and per-chunk dill copies of "
+    "multiprocess.Pool, deterministic, in this process; the same model is validated against the real pool by C08's conformance "
+    "sub-check); two cases run the real pathos pool on a constant script",
     "sub 'history': the MCStatistics object returned by a pricing is taken to be the report of THAT pricing (no 'valid until "
     "the next price() call' clause in the statement), so it must read the same after later pricings",
     "stored rows are read from MCStatistics._payoff_statistics / _control_variates_statistics / "
